@@ -131,9 +131,9 @@ def sh(cmd, **kw):
 only = sys.argv[1:]
 vcommit = sh('git -C %s rev-parse --short HEAD' % HERE).stdout.strip()
 rcommit = sh('git -C /repo rev-parse --short HEAD').stdout.strip()
-for d in sorted(os.listdir(os.path.join(HERE, 'seeded'))):
+for d in (only or sorted(os.listdir(os.path.join(HERE, 'seeded')))):
     sd = os.path.join(HERE, 'seeded', d)
-    if not os.path.isdir(sd) or (only and d not in only):
+    if not os.path.isdir(sd):
         continue
     prop = d.split('_')[0]
     if sh('git -C /repo diff --quiet').returncode != 0:
